@@ -158,6 +158,28 @@ def trace_cell(cell):
         for m in o:
             if len(out) < 3:
                 out.append({'msg': f'sight {sh} in, barrel {bar}, look {la}, mv {mv}, range {R:.1f} ft, record step {st!r} ft: {m}', 'key': None})
+    # an event in the very iteration that ends the trajectory (a limit is crossed one step after the event is detected): the rows of the
+    # incomplete trajectory must still flag the event exactly once
+    if not opt:
+        for i in range(1, len(tr) - 1):
+            is_mach = M[i - 1] > 1 > M[i]
+            is_zero = (S[i - 1] < 0 < S[i]) or (S[i - 1] > 0 > S[i])
+            if not (is_mach or is_zero):
+                continue
+            v_i, v_n = tr[i].velocity >> U.FPS, tr[i + 1].velocity >> U.FPS
+            y_i, y_n = tr[i].height >> U.Foot, tr[i + 1].height >> U.Foot
+            cfgs = []
+            if v_n < v_i and all((r.velocity >> U.FPS) >= (v_i + v_n) / 2 for r in tr[:i + 1]):
+                cfgs.append({'cMinimumVelocity': (v_i + v_n) / 2})
+            if y_n < y_i and all((r.height >> U.Foot) >= (y_i + y_n) / 2 for r in tr[:i + 1]):     # not already violated earlier (e.g. at the muzzle)
+                cfgs.append({'cMaximumDrop': (y_i + y_n) / 2})
+            for cfg in cfgs:
+                c2 = make_calc(cfg)
+                o, ev = check(c2, shot, la, R, 300.0, tr[:i + 2])
+                n += 1
+                for m in o:
+                    if len(out) < 3:
+                        out.append({'msg': f'sight {sh} in, barrel {bar}, look {la}, mv {mv}, limit {cfg} reached in the iteration that detects the event at {X[i]:.3f} ft: {m}', 'key': None})
     has_event = any(sum(p) for p in profiles)
     return {'v': out, 'n': n, 'nt': cell if has_event else None, 'states': n, 'transitions': n, 'traces': n, 'obs': sorted(profiles)[0] if profiles else None}
 
